@@ -349,6 +349,13 @@ func sameValue(c *interp.Ctx, a, b interp.Value) int {
 	return -1
 }
 
+// decideSame resolves equality of two string values on the current path,
+// forking the path when both outcomes are feasible (oracles use it when the
+// expected result depends on a condition the code under test did not decide).
+func decideSame(c *interp.Ctx, a, b interp.Value) bool {
+	return c.DecideValue(interp.StrEq(a, b))
+}
+
 // Bisimulate checks that ref and asm are bisimilar from (r0,a0): every run
 // performs the same events and ends the same way, for every state chosen
 // afresh after every event. It returns the first mismatch found (nil if
